@@ -384,6 +384,14 @@ def r6_stop_is_always_reported_as_stop(ctx):
         R.check(ok, "C10.R6", "try_recv:stop-arm-reports-stopped", "when the stop future wins, try_recv reports Receive::Stopped", "try_recv can report something else than Receive::Stopped when the stop signal fired (a path from the stop arm leaves without building it): the connection is then torn down as `closed by the peer`, without waiting for the calls that are executing - their answers are lost", "%s:%d" % (b.file, block_line(b, t)))
 
 
+
+def rhyper_vetted_transport_options(ctx):
+    """how hyper drains a connection at graceful_shutdown() depends on its builder options: the server sets the vetted
+    closed list only (e.g. `http1().pipeline_flush(true)` holds answers back until the pipeline is idle) (= C11.R6)"""
+    from . import c11
+    c11.r6_vetted_transport_options(ctx)
+
+
 def rloop_event_loops_keep_polling(ctx):
     """a stop request is seen only by a loop that is polling for it: the accept loop and the connection loop suspend only
     at vetted points, each of which races the stop signal (= C11.LOOP)"""
@@ -397,7 +405,7 @@ def rspawn_vetted_spawn_sites(ctx):
     vetted_spawns(ctx, "C10.SPAWN")
 
 
-RULES = [r1_who_keeps_stopped_pending, r2_service_handle, r3_writer_stops_last, r4_http_stop_arm, rspawn_vetted_spawn_sites, rloop_event_loops_keep_polling, r5_token_is_not_duplicated_by_the_connection, r6_stop_is_always_reported_as_stop] + BORROWED
+RULES = [r1_who_keeps_stopped_pending, r2_service_handle, r3_writer_stops_last, r4_http_stop_arm, rspawn_vetted_spawn_sites, rloop_event_loops_keep_polling, r5_token_is_not_duplicated_by_the_connection, r6_stop_is_always_reported_as_stop, rhyper_vetted_transport_options] + BORROWED
 
 LEVEL_TEXT = (
     "Only the ownership / ordering skeleton of graceful stop is decided (the statement quantifies over schedules): which "
